@@ -224,6 +224,10 @@ pub fn run_batch(
             // raise a false alarm when the VM is suspended or starved). Wall-clock is only the fallback, with a
             // tenfold margin, where /proc is not available.
             let limit = stuck_limit_s() as f64;
+            // (an evaluation that is *blocked* - a lock it already holds, a channel nobody feeds - burns no CPU: it
+            // counts as stuck after five times the limit in watchdog wake-ups of 200 ms, which a suspended machine
+            // does not produce either)
+            let mut ticks: Vec<u64> = vec![0; nw];
             let mut seen: Vec<(u64, Option<f64>, Instant)> = (0..nw).map(|_| (u64::MAX, None, Instant::now())).collect();
             while active.load(Ordering::SeqCst) > 0 {
                 std::thread::sleep(std::time::Duration::from_millis(200));
@@ -236,12 +240,14 @@ pub fn run_batch(
                     let tid = tids[k].load(Ordering::SeqCst);
                     if seen[k].0 != i {
                         seen[k] = (i, thread_cpu_secs(tid), Instant::now());
+                        ticks[k] = 0;
                         continue;
                     }
+                    ticks[k] += 1;
                     let stuck = match (seen[k].1, thread_cpu_secs(tid)) {
                         (Some(a), Some(b)) => b - a > limit,
                         _ => seen[k].2.elapsed().as_secs_f64() > 10.0 * limit,
-                    };
+                    } || ticks[k] as f64 > 25.0 * limit;
                     if stuck {
                         report_stuck(check, seed, tier, i);
                     }
@@ -381,7 +387,7 @@ fn report_stuck(check: &dyn Erased, seed: u64, tier: Tier, index: u64) -> ! {
         });
         rx.recv_timeout(std::time::Duration::from_secs(20)).unwrap_or(Value::Null)
     });
-    let msg = format!("evaluation #{index} burnt more than {} s of CPU time without finishing: the code under simulation loops without yielding (virtual time cannot advance)", stuck_limit_s());
+    let msg = format!("evaluation #{index} did not finish (more than {} s of CPU time burnt, or blocked for five times as long): the code under simulation loops without yielding or blocks the thread (virtual time cannot advance)", stuck_limit_s());
     let path = write_replay(check, seed, index, STUCK_RULE, &sc, &msg);
     println!("violation: property={} rule={} seed={} index={} (not minimised): {}", check.id(), STUCK_RULE, seed, index, msg);
     println!("VIOLATION property={} replay={}", check.id(), path.display());
@@ -632,6 +638,7 @@ pub fn replay_file(checks: &[Box<dyn Erased>], path: &str) -> i32 {
             let _ = tx.send(check.execute_json(&scv));
         });
         let started = Instant::now();
+        let mut polls = 0u64;
         let mut cpu0: Option<f64> = None;
         loop {
             match rx.recv_timeout(std::time::Duration::from_millis(200)) {
@@ -643,12 +650,13 @@ pub fn replay_file(checks: &[Box<dyn Erased>], path: &str) -> i32 {
             if cpu0.is_none() {
                 cpu0 = now;
             }
+            polls += 1;
             let stuck = match (cpu0, now) {
                 (Some(a), Some(b)) => b - a > limit as f64,
                 _ => started.elapsed().as_secs() > 10 * limit,
-            };
+            } || polls > 25 * limit;
             if stuck {
-                println!("replayed violation property={id} rule={STUCK_RULE} : the evaluation does not finish within {limit} s of CPU time");
+                println!("replayed violation property={id} rule={STUCK_RULE} : the evaluation does not finish (more than {limit} s of CPU time, or blocked for five times as long)");
                 if rule == STUCK_RULE {
                     println!("VIOLATION property={id} replay={path}");
                     std::process::exit(1);
